@@ -2,16 +2,15 @@
 import importlib.util, os
 _s = importlib.util.spec_from_file_location("dm", os.path.join(VERIF, "props", "_dm_common.py")); dm = importlib.util.module_from_spec(_s); _s.loader.exec_module(dm)
 
-REPL = "_ZNSt7__cxx1112basic_stringIcSt11char_traitsIcESaIcEE10_M_replaceEmmPKcm.0"
 COMPILE = "_ZNSt7__cxx1111basic_regexIcNS_12regex_traitsIcEEE10_M_compileEPKcS5_NSt15regex_constants18syntax_option_typeE.0"
 def h(mode, name, what, unwind=6, defines=(), timeout=900, solver="cadical", unwindset=None):
     # the translated code is goto-structured: merge points reached by backward jumps count as loops;
     # the default bound covers them and the device loop (NID + 2), the text loops get their own
-    us = {"strlen.0": 13, REPL: 17, COMPILE: 17, "verif_copy_ident.0": 7}
+    us = {"strlen.0": 20, "_ZNSt13runtime_errorC1EPKc.0": 98, "_ZNSt13runtime_errorC1ERKNSt7__cxx1112basic_stringIcSt11char_traitsIcESaIcEEE.0": 98, "has_conversion.0": 98,  COMPILE: 17, "verif_copy_ident.0": 7,  "keep_message.0": 98, "memcpy.0": 40, "memmove.0": 40}
     for k in range(12): us["main.%d" % k] = 17
     us.update(unwindset or {})
     return H(name, "harness/hal/devman.c", repo=[], env=[], defines=["MODE=%d" % mode] + list(defines), pre=dm.pre_dm(VERIF), unwind=unwind, unwindset=us,
-             solver=solver, timeout=timeout, mem_gb=16, what=what,
+             solver=solver, timeout=timeout, mem_gb=int(os.environ.get('VERIF_C12_MEM', '16')), est_gb=int(os.environ.get('VERIF_C12_MEM', '16')) // 4, what=what,
              bounds=dict(devices="0..%s" % [x for x in defines if x.startswith("NID=")][0][4:], name_bytes=2, pattern_bytes="0..%s" % [x for x in defines if x.startswith("PMAX=")][0][5:],
                          index="16 representative values 0..2^32-1", driver_id="9 representative values 0..255", regex_engine="oracle"))
 
@@ -19,8 +18,8 @@ def harnesses(tier, findings):
     big = tier == "thorough"
     nid, pmax = (4, 4) if big else (3, 3)
     d = ["NID=%d" % nid, "PMAX=%d" % pmax]
-    return [
-        h(1, "select_pattern", "device_manager_select for an arbitrary manager of 0..%d devices, any kind, any pattern bytes up to %d (NULs anywhere, NULL pointer), malformed-pattern outcome symbolic; regex engine as oracle" % (nid, pmax), defines=d),
+    return [h(1, "select_pattern_len%d" % pl, "device_manager_select for an arbitrary manager of 0..%d devices, any kind, a pattern of %d arbitrary bytes (NULs anywhere; NULL pointer), malformed-pattern outcome symbolic; regex engine as oracle; exception messages used as logger formats must be free of conversions" % (nid, pl), defines=d + ["PLEN=%d" % pl])
+            for pl in range(pmax + 1)] + [
         h(3, "select_first_default", "device_manager_select_first / _select_default for an arbitrary manager and kind", defines=d),
         h(2, "get_index_driver", "device_manager_count / _get(index: any u32) / _get_driver(driver_id: any u8) with NULL handles", defines=d),
     ] + ([] if tier != "enum" else []) + [h(4, "enumerate_p%02x_%s" % (pres, "".join(map(str, nd))),
@@ -34,6 +33,6 @@ META = dict(
                 thorough="managers of 0..4 devices, patterns of 0..4 bytes"),
     outside="ENUMERATION (DeviceManagerV0::init: six driver_load calls and two growing std::vectors) is NOT decided: the harness for it exists (MODE 4 of harness/hal/devman.c, tier enum) but symex does not get through the vector relocation code with concrete bounds, so which identifiers exist and in which order is an assumption (an arbitrary table) of the selection checks, and the behaviour with absent driver libraries is only covered as far as NULL entries of the driver table are concerned. THE REGULAR-EXPRESSION ENGINE ITSELF (libstdc++ std::regex: ~220 template instantiations, locale facets): which names a given pattern text matches, case folding inside the engine and which texts it rejects are an ORACLE (arbitrary per device / symbolic reject); what is decided is the code around it: pattern text and flags that reach the engine (icase, whole-name mode), enumeration order, kind filter, first hit, empty pattern, NUL trimming, error statuses, no escaping exception. Also outside: dlopen/dlsym in loader.c (driver_load is a stub returning a driver or NULL), names longer than 2 bytes, more than 4 devices",
     assumptions=["C translation of the clang-14 -O1 IR of device.manager.cpp (ir2c.py, unwinding mode), regenerated and differentially validated on every run",
-                 "models of std::string::_M_replace (assignment to an empty small string), operator new/delete, __cxa_* and __throw_* (set the in-flight exception), std::locale (no-op)",
+                 "std::string members are translated with the unit (instantiated in its IR); models of operator new/delete, __cxa_* and __throw_* (set the in-flight exception), std::runtime_error (keeps a copy of its message), std::locale (no-op); std::runtime_error keeps its message and records whether it contains a conversion; the logger rejects such a message as its format",
                  "allocation failure is out of scope (operator new never fails)"],
 )
